@@ -249,6 +249,12 @@ def gen_cases(ctx):
         elif r < 0.25:
             # ... nor on layer names that contain one another (each subprocess runs its own layer only)
             worlds.shape_substring_names(rng, w, o, parallel=rng.random() < 0.5)
+        elif r < 0.4 and w["tests"]:
+            # ... nor on what a layer subprocess writes to its real stderr while it shuts down (after its report)
+            for t_ in rng.sample(w["tests"], min(2, len(w["tests"]))):
+                if not t_.get("doctest"):
+                    t_["setUp"]["atexit_fd2"] = rng.choice(["fixture-server: stopped\n", "bye\n", "2 leaked handles\nclosing\n"])
+            o["processes"] = rng.choice([2, 3])
         cases.append(cw.Case(w, o))
     return cases
 
